@@ -40,19 +40,32 @@ type Case struct {
 	Method     string
 	KeyKind    string
 	KeyIdx     int
-	Temporal   bool            // AddChain / AddPreChain / GetAcceptedRoots through a one-shard TemporalLogClient
-	EmptyChain bool            // the caller submits no certificate at all
-	Chain      world.ChainSpec // the submission
-	Other      world.ChainSpec // "another certificate"
-	Entries    []EntrySpec     // get-entries / get-entry-and-proof payload
-	Timestamp  uint64
-	TreeSize   uint64
-	Seed       uint32 // root hash and proof nodes derive from it
-	Ext        []byte // SCT extensions
-	NHashes    int
-	A, B       uint64 // call arguments
-	Script     []Resp // served in order; the last one repeats for ever
-	DeadlineS  int    // caller deadline (virtual seconds) for the retrying methods
+	Temporal   bool // AddChain / AddPreChain / GetAcceptedRoots through a one-shard TemporalLogClient
+	EmptyChain bool // the caller submits no certificate at all
+	// How the client is given its key, and which other clients exist in the process before it.
+	// KeyPEM: 0 = Options.PublicKey unset, 1 = PEM of the log key, 2 = PEM of the decoy key (only together
+	// with PublicKeyDER, which takes precedence by the documented rule). NoDER: PublicKeyDER unset (then KeyPEM is 1).
+	KeyPEM    int
+	NoDER     bool
+	DecoyIdx  int             // the decoy key: same kind as the log key, another pool entry
+	Siblings  []Sibling       // clients built in the same process before the client under test
+	Chain     world.ChainSpec // the submission
+	Other     world.ChainSpec // "another certificate"
+	Entries   []EntrySpec     // get-entries / get-entry-and-proof payload
+	Timestamp uint64
+	TreeSize  uint64
+	Seed      uint32 // root hash and proof nodes derive from it
+	Ext       []byte // SCT extensions
+	NHashes   int
+	A, B      uint64 // call arguments
+	Script    []Resp // served in order; the last one repeats for ever
+	DeadlineS int    // caller deadline (virtual seconds) for the retrying methods
+}
+
+// Sibling is another client's key configuration: 0 = unset, 1 = the log key, 2 = the decoy key.
+type Sibling struct {
+	PEM int
+	DER int
 }
 
 var methods = []string{"GetSTH", "AddChain", "AddPreChain", "GetSTHConsistency", "GetProofByHash", "GetRawEntries", "GetEntries", "GetEntryAndProof", "GetAcceptedRoots"}
@@ -258,7 +271,8 @@ type built struct {
 	Body     []byte
 	ReadErr  bool // the body reader fails after ReadAt bytes
 	ReadAt   int
-	NetErr   bool // RoundTrip itself fails
+	NetErr   bool  // RoundTrip itself fails
+	CL       int64 // Response.ContentLength as net/http's transport would set it (-1 = not announced)
 	Location string
 }
 
@@ -327,6 +341,18 @@ func (s *scene) wrongTypeEntry(method string, b *world.Built) rfc6962.Entry {
 }
 
 var foreignKinds = []string{"p256", "rsa2048", "p384", "ed25519", "rsa3072"}
+
+// decoyKey is a second key of the log key's kind: the one other clients in the process, or the
+// lower-precedence option of this client, are configured with.
+func (s *scene) decoyKey() *keys.Key {
+	for i := 0; i < 64; i++ {
+		k := keys.Pick(s.key.Kind, s.c.KeyIdx+1+s.c.DecoyIdx+i)
+		if k.Name != s.key.Name {
+			return k
+		}
+	}
+	panic("harness: no decoy key of kind " + s.key.Kind)
+}
 
 func (s *scene) foreignKey(n int) *keys.Key {
 	kind := s.key.Kind
@@ -407,6 +433,8 @@ func (p *sigPlan) apply(s *scene, m Mut) bool {
 	switch m.Kind {
 	case "sig-foreign":
 		p.key = s.foreignKey(m.N)
+	case "sig-decoy":
+		p.key = s.decoyKey()
 	case "sig-flip":
 		p.flips = append(p.flips, m.N)
 	case "sig-empty":
@@ -523,6 +551,9 @@ func (s *scene) fields(muts []Mut) []jf {
 			case "id-foreign":
 				h := sha256.Sum256(s.foreignKey(m.N).SPKI)
 				id = h[:]
+			case "id-decoy":
+				h := sha256.Sum256(s.decoyKey().SPKI)
+				id = h[:]
 			case "id-zero":
 				id = make([]byte, 32)
 			case "id-len":
@@ -606,7 +637,7 @@ var retryAfterVals = []string{"0", "-1", "-30", "Mon, 01 Jan 1990 00:00:00 GMT",
 
 // build resolves one scripted answer. last: the answer repeats for ever.
 func (s *scene) build(r Resp, last bool) *built {
-	b := &built{Status: 200, Header: map[string]string{"Content-Type": "application/json"}}
+	b := &built{Status: 200, CL: -1, Header: map[string]string{"Content-Type": "application/json"}}
 	fs := s.fields(r.Muts)
 	// JSON-level edits
 	for _, m := range r.Muts {
@@ -688,6 +719,9 @@ func (s *scene) build(r Resp, last bool) *built {
 			}
 		case "body-append":
 			body += []string{"xyz", "}", "{}", " \n\t ", body, "\x00", ",", "]"}[m.N%8]
+		case "body-huge-pad":
+			// more than 32 MiB of white space after the JSON value (legal by itself), then possibly something else
+			body += strings.Repeat(" ", 32<<20+m.N%4096) + []string{"xyz", "{}", "", "\n"}[m.M%4]
 		case "body-prepend":
 			body = []string{"\xef\xbb\xbf", " \r\n", ")]}'\n", "[", "x"}[m.N%5] + body
 		}
@@ -720,6 +754,54 @@ func (s *scene) build(r Resp, last bool) *built {
 	}
 	if b.ReadAt > len(b.Body) {
 		b.ReadAt = len(b.Body)
+	}
+	// A Content-Length header as net/http's transport treats it: a value that is not a non-negative int64
+	// fails the round trip; otherwise Response.ContentLength carries it, a longer body is cut at it and a
+	// shorter one ends in an unexpected EOF.
+	for _, m := range r.Muts {
+		if m.Kind != "content-length" || b.NetErr {
+			continue
+		}
+		var cl int64
+		switch m.N % 10 {
+		case 0:
+			cl = 0
+		case 1:
+			cl = int64(len(b.Body)) - 1
+		case 2:
+			cl = int64(len(b.Body)) + 1
+		case 3:
+			cl = 1 << 50
+		case 4:
+			cl = 1 << 62
+		case 5:
+			cl = 1<<63 - 1
+		case 6:
+			cl = int64(len(b.Body)) // honest
+		case 7:
+			cl = 1<<31 + int64(m.M)
+		case 8:
+			b.Header["Content-Length"] = []string{"-1", "abc", "18446744073709551616", "1 1", ""}[m.M%5]
+			b.NetErr = true
+			continue
+		case 9:
+			cl = 1<<48 + int64(m.M)
+		}
+		if cl < 0 {
+			cl = 0
+		}
+		b.CL = cl
+		b.Header["Content-Length"] = strconv.FormatInt(cl, 10)
+		switch have := int64(len(b.delivered())); {
+		case cl < have:
+			b.Body = b.Body[:cl]
+			if b.ReadAt > len(b.Body) {
+				b.ReadAt = len(b.Body)
+				b.ReadErr = false
+			}
+		case cl > have && !b.ReadErr:
+			b.ReadErr, b.ReadAt = true, len(b.Body)
+		}
 	}
 	if last {
 		// Keep the endless tail inside the statement: a GET that is redirected for ever ends inside net/http
